@@ -69,6 +69,7 @@ var Shapes = []string{"plain", "ext", "junk1", "otherlog", "stale-own-valid", "s
 //	stale-own-valid   carries an older valid cosignature/v1 + legacy signature of the witness
 //	stale-own-invalid carries a corrupted signature line under the witness's name/key hash
 //	dup-logsig        the log's signature line twice
+//	blankext          extension lines with a blank line among them
 //	oddroot           a root hash that is the root of no tree (see OddRoot)
 //	namesake-future/-past/-legacy  an unverifiable line under the witness's key NAME (other key hash), cosignature-shaped with a far-future / ancient timestamp, or legacy-shaped
 func (g *CPGen) Get(l LogCfg, b *uni.Branch, n int, shape string) ([]byte, Meta) {
@@ -83,6 +84,12 @@ func (g *CPGen) Get(l LogCfg, b *uni.Branch, n int, shape string) ([]byte, Meta)
 	var ext []string
 	if shape == "ext" {
 		ext = []string{"extension line one 100%sure %d %25", "ext2 " + b.Name + " \u2014 caf\u00e9"}
+	}
+	if shape == "blankext" {
+		// A blank line among the extension lines: the note format cuts text
+		// from signatures at the LAST blank line, so this is a legitimate
+		// checkpoint; code that cuts at the first one sees another text.
+		ext = []string{"extension line before a blank line", "", "extension line after it"}
 	}
 	if strings.HasPrefix(shape, "bigext") {
 		// K KiB of extension lines (legitimate: the checkpoint format allows
@@ -142,7 +149,7 @@ func (g *CPGen) Get(l LogCfg, b *uni.Branch, n int, shape string) ([]byte, Meta)
 		}
 	}
 	switch {
-	case shape == "plain" || shape == "ext" || shape == "oddroot" || strings.HasPrefix(shape, "pad") || strings.HasPrefix(shape, "bigext") || strings.HasPrefix(shape, "sizepad") || shape == "looseb64":
+	case shape == "plain" || shape == "ext" || shape == "blankext" || shape == "oddroot" || strings.HasPrefix(shape, "pad") || strings.HasPrefix(shape, "bigext") || strings.HasPrefix(shape, "sizepad") || shape == "looseb64":
 	case len(shape) > 4 && shape[:4] == "junk":
 		var j int
 		fmt.Sscanf(shape[4:], "%d", &j)
